@@ -51,6 +51,9 @@ def wl_history(ctx, rng, case):
                 force = rng.random() < 0.2
                 if force and rng.random() < 0.3:
                     force = 1  # a truthy flag that is not the object True (the result of `flags & 1`, a numpy bool, ...)
+                elif not force and rng.random() < 0.3:
+                    force = rng.choice([0, None])  # ... and a falsy one that is not the object False: not forced
+                    ctx.count("adds_with_a_falsy_flag_that_is_not_False")
                 present = f.check(key)
                 eff = force or not present
                 _, _, bits_before = stream_state(f) if (present and not force) else (None, None, None)
